@@ -91,6 +91,24 @@ def run_case(i, seed, tier):
     g = Gen(seed * 1000003 + i)
     cfg = g.cfg(index=i + seed * 7)
     profile = common.PROFILES[i % len(common.PROFILES)]
+    if i % 40 == 7:
+        # directory records filling their sector(s) exactly, with and without spill-over
+        from harness.model import Cfg
+        cfg = Cfg(level=g.rng.choice([1, 2, 3]), joliet=g.rng.choice([None, 3]))
+        ops = common.exact_fill_ops(cfg.level, blocks=g.rng.choice([1, 1, 2, 3]), extra=g.rng.choice([0, 0, 1, 3]))
+        h = common.History(cfg, seed * 1000003 + i, 'std')
+        for op in ops:
+            h.apply(op)
+        if g.rng.random() < 0.5:
+            h.extend(g.rng.choice([2, 6]))
+        ops = list(h.ops)
+        h.sess.close()
+        vio, img = check_history(cfg, ops, seed * 1000003 + i, counters)
+        counters['exact_fill_cases'] = 1
+        return {'verdict': 'violated' if vio else 'held',
+                'violations': [dict(v, replay=common.replay_doc(PROPERTY, cfg, ops, seed * 1000003 + i)) for v in dedup(vio)],
+                'nontrivial': True, 'shape': 'exact-fill/%s/%d' % (cfg.key(), len(ops)),
+                'sample': {'cfg': cfg.to_json(), 'profile': 'exact-fill', 'n_ops': len(ops)}, 'counters': counters}
     nops = g.rng.choice([3, 6, 10, 15, 22, 30]) if tier == 'quick' else g.rng.choice([4, 10, 20, 30, 45, 60])
     h = common.History(cfg, seed * 1000003 + i, profile)
     h.extend(nops)
